@@ -270,7 +270,7 @@ class ChunkIO(RuleBasedStateMachine):
             ds.LAYOUTS) else "c"
         narrow = {"uint16": "uint8", "uint32": "uint16", "uint64": "uint32",
                   "float32": "uint16"}.get(self.info["data_type"])
-        if (seed // 7) % 9 == 6 and narrow and sc["encoding"] != "jpeg":
+        if (seed // 7) % 9 in (6, 7) and narrow and sc["encoding"] != "jpeg":
             # values held in a narrower type that converts safely to the
             # dataset's type (labels kept as uint32 in a uint64 dataset, ...)
             small = (arr.astype(np.float64) % 251).astype(narrow) \
